@@ -81,6 +81,9 @@ def gen_case(rnd, want_overlap=False, clusters=False, nmax=12):
     groups = []
     if (flags & 1) and rnd.random() < 0.3 and n >= 3:
         groups.append(rnd.sample(range(n), rnd.randint(2, min(4, n))))
+        rest = [i for i in range(n) if i not in groups[0]]
+        if len(rest) >= 2 and rnd.random() < 0.6:        # a second exemption group, disjoint from the first
+            groups.append(rnd.sample(rest, rnd.randint(2, min(3, len(rest)))))
     cl = []
     if clusters and n >= 4 and not (flags & 4):
         ids = list(range(n))
@@ -97,6 +100,19 @@ def gen_case(rnd, want_overlap=False, clusters=False, nmax=12):
             pm = lambda: (rnd.choice([0, 2]), rnd.choice([0, 2]))
             cl = [pm() + (-1, pn), pm() + (0, cdirect), pm() + (1, d1), pm() + (1, d2)]
     return {'nodes': nodes, 'edges': sorted(edges), 'flags': flags, 'cons': cons, 'groups': groups, 'clusters': cl}
+
+
+def gen_crowded(rnd):
+    """few nodes on top of each other, overlap avoidance and makeFeasible on, and a handful of separations (some slack, some pushing hard):
+    the non-overlap alternatives that makeFeasible tries interact with the user's constraints"""
+    n = rnd.randint(2, 5)
+    nodes = [(2 * rnd.randint(4, 20), 2 * rnd.randint(4, 20), rnd.randint(40, 80), rnd.randint(40, 80)) for _ in range(n)]
+    edges = sorted({(min(a, b), max(a, b)) for a, b in (rnd.sample(range(n), 2) for _ in range(rnd.randint(0, n)))})
+    cons = []
+    for _ in range(rnd.randint(1, 4)):
+        l, r = rnd.sample(range(n), 2)
+        cons.append([1, rnd.randint(0, 1), l, r, rnd.choice([0, 10, 25, 100, 200]), 0])
+    return {'nodes': nodes, 'edges': edges, 'flags': 3 | (8 if rnd.random() < 0.2 else 0), 'cons': cons, 'groups': [], 'clusters': []}
 
 
 def write_cases(path, cases):
